@@ -228,3 +228,39 @@ Proof.
       mkA GStd 0 0 [] 0 MAir false 0 0 0 0] ltac:(discriminate)) as (l & E & B).
   exists l. split; [exact E|]. destruct B as (BP & _). rewrite BP. reflexivity.
 Qed.
+
+(** ** a ready-made surface object (add_surface(new_surface=..., index, thickness)) appended in index order:
+    it keeps the vertex the caller gave it, and the next surface made from keywords is placed at that
+    vertex plus the thickness stated with the ready-made surface *)
+Theorem ready_made_then_keyword (l : lensR) kind R k c z t m stop refl (a : aspec) l1 :
+  (1 <= List.length (surfs l))%nat ->
+  step l (AddReady (O:=ROps) (Z.of_nat (List.length (surfs l))) kind R k c z t m stop refl) = Some l1 ->
+  positions l1 = positions l ++ [z] /\ last_t l1 = t /\
+  exists l2, step l1 (add_op (List.length (surfs l1)) a) = Some l2 /\
+             positions l2 = positions l ++ [z; z + t].
+Proof.
+  intros Hn. cbn [step]. unfold add_ready.
+  destruct (_ || _); [discriminate|].
+  destruct (cfg_material l _ m) as [[[pre post] mats']|]; [|discriminate].
+  destruct (cfg_geometry kind R k c) as [[[g R'] k'] c'].
+  intros E; injection E as <-.
+  assert (P1 : positions (mkL (insert_at (Z.to_nat (Z.of_nat (List.length (surfs l))))
+                 (mkS (O:=ROps) (ofZ 0) (ofZ 0) z (ofZ 0) (ofZ 0) g R' k' c' pre post stop refl false)
+                 (if stop then map (fun s => with_stop s false) (surfs l) else surfs l))
+               mats' t (waves l) (prims l) (pickups l) (solves l) (ap l)) = positions l ++ [z]).
+  { unfold positions. cbn [surfs]. rewrite Nat2Z.id. destruct stop.
+    - replace (List.length (surfs l)) with (List.length (map (fun s : surfR => with_stop s false) (surfs l))) at 1
+        by (rewrite map_length; reflexivity).
+      rewrite insert_at_end, map_app, map_map. reflexivity.
+    - rewrite insert_at_end, map_app. reflexivity. }
+  split; [exact P1|]. split; [reflexivity|].
+  set (l1 := mkL _ mats' t _ _ _ _ _) in *.
+  assert (L1 : List.length (surfs l1) = S (List.length (surfs l))).
+  { assert (LP : List.length (positions l1) = List.length (surfs l1)) by (unfold positions; apply map_length).
+    rewrite <- LP, P1, app_length. unfold positions. rewrite map_length. simpl. lia. }
+  destruct (add_in_order l1 a ltac:(lia)) as (l2 & new & post2 & ES & Q1 & _).
+  exists l2. split; [exact ES|]. rewrite Q1, P1, L1.
+  destruct (Z.eqb_spec (Z.of_nat (S (List.length (surfs l)))) 1) as [E1|_]; [lia|].
+  replace (Z.of_nat (S (List.length (surfs l))) - 1)%Z with (Z.of_nat (List.length (positions l))) by (unfold positions; rewrite map_length; lia).
+  rewrite getZ_app_last. rewrite <- app_assoc. reflexivity.
+Qed.
